@@ -97,6 +97,7 @@ InDom(dom, x, y) ==
     \* divertor legs only: the few, strongly curved cells of a coarse core make finite displacements
     \* a poor estimate of the tangent vectors
     [] dom = "legsAwayX" -> Kind(T, Order(T)[RegY(y)]) \in {"wall.X", "X.wall"} /\ ~XRow(y)
+    [] dom = "legsAwayXnotfirst" -> Kind(T, Order(T)[RegY(y)]) \in {"wall.X", "X.wall"} /\ ~XRow(y) /\ y > RY0(RegY(y)) /\ ~XRow(y - 1)
     [] dom = "coreRegions" -> Kind(T, Order(T)[RegY(y)]) \in {"X.X", "closed"}
     [] dom = "legRegions" -> Kind(T, Order(T)[RegY(y)]) \in {"wall.X", "X.wall", "wall.wall"}
     [] OTHER -> FALSE
@@ -112,6 +113,8 @@ PairOK(p) ==
            [] p.kind = "samesign" -> a # NANV /\ b # NANV /\ a # 0 /\ SameSign(a, b)
            [] p.kind = "signratio12" -> a # NANV /\ b # NANV /\
                  (20 * Abs(b) <= Obs.g12scale[x + 1][y + 1] \/ (SameSign(a, b) /\ 2 * Abs(a) >= Abs(b) /\ Abs(a) <= 2 * Abs(b)))
+           [] p.kind = "signratio12y" -> a # NANV /\ b # NANV /\
+                 (20 * Abs(b) <= Obs.g12scale_ylow[x + 1][y + 1] \/ (SameSign(a, b) /\ 2 * Abs(a) >= Abs(b) /\ Abs(a) <= 2 * Abs(b)))
            [] OTHER -> FALSE
 PairClauses == \A k \in 1..Len(Obs.pairs) : ClauseAt(Obs.pairs[k].clause, PairOK(Obs.pairs[k]), Obs.pairs[k].loc)
 
@@ -242,11 +245,12 @@ C08GridClauses ==
            /\ SamePoint(P.upper_left_corners, x, y, P.corners, x, u)
            /\ SamePoint(P.upper_right_corners, x, y, P.lower_right_corners, x, u)
            /\ SamePoint(P.yhi, x, y, P.ylow, x, u), "y")
-  /\ ClauseAt("SharedEdgeX", \A x \in XS : \A y \in YS :
-        x + 1 \in XS =>
+  \* one clause instance per radial face, so that a finding names the face
+  /\ \A x \in XS :
+       x + 1 \in XS => ClauseAt("SharedEdgeX", \A y \in YS :
            /\ SamePoint(P.lower_right_corners, x, y, P.corners, x + 1, y)
            /\ SamePoint(P.upper_right_corners, x, y, P.upper_left_corners, x + 1, y)
-           /\ SamePoint(P.xhi, x, y, P.xlow, x + 1, y), "x")
+           /\ SamePoint(P.xhi, x, y, P.xlow, x + 1, y), "xface" \o ToString(x + 1))
   /\ \A loc \in {"centre", "xlow", "ylow"} :
        ClauseAt("ChiNaNOnOpen", \A x \in XS : \A y \in YS : (Obs.chi_nan[loc][x + 1][y + 1] = 1) = ~OnClosed(x, y), loc)
 
